@@ -47,7 +47,7 @@ def design(ctx, f5_open):
 def grid(ctx, rng):
     specs = []
     sizes = [0, 1000, 5000, 12288, 30000] if ctx.quick else [0, 1, 1000, 2048, 5000, 12288, 30000, 100000]
-    reasons = ['no space', '', 'x' * 300, 'caf\xe9 \xff']
+    reasons = ['no space', '', 'x' * 300, 'caf\xe9 \xff', "couldn't create file: /sdcard/100%_done.txt", '%s %d %(x)s 100%', '{} {0} {x}', 'line1\nline2\x00tail']     # adbd echoes paths: any bytes
     k = 0
     for size in sizes:
         for where, kk in [('SEND', 0), ('DATA', 0), ('DATA', 1), ('DATA', 3), ('DONE', 0)]:
@@ -57,7 +57,7 @@ def grid(ctx, rng):
                 for rep_ in range(1 if not reorder else (2 if ctx.quick else 6)):
                     k += 1
                     specs.append(dict(seed=ctx.seed * 7919 + k, maxdata=4096, rid='plus', frag=rng.choice(['whole', 'random']), reorder=reorder, eager=bool(k % 3 == 0),
-                                      ops=[dict(api='push', size=size, src='bytesio', path=('/t', '/т')[k % 2], mtime=5, plan=dict(where=where, k=kk, reason=reasons[k % 4]),
+                                      ops=[dict(api='push', size=size, src='bytesio', path=('/t', '/т')[k % 2], mtime=5, plan=dict(where=where, k=kk, reason=reasons[k % len(reasons)]),
                                                 cuts=rng.choice(['whole', 'small', 'bytes1']), read_timeout_s=2.0)]))
     # larger maxdata
     for md in (65536, 1024 * 1024):
@@ -73,8 +73,8 @@ def grid(ctx, rng):
             for cb in (None, 'ok'):
                 k += 1
                 specs.append(dict(seed=ctx.seed * 31 + k, maxdata=4096, rid='plus', frag=rng.choice(['whole', 'random']),
-                                  ops=[dict(api='pull', size=size, path=('/p', '/é/p')[k % 2], path_bytes=(k % 3 == 0), plan=dict(where=where, k=kk, reason=reasons[k % 4]), cuts=rng.choice(['whole', 'small', 'bytes1']),
-                                            cb=cb, read_timeout_s=2.0)]))
+                                  ops=[dict(api='pull', size=size, path=('/p', '/é/p')[k % 2], path_bytes=(k % 3 == 0), plan=dict(where=where, k=kk, reason=reasons[k % len(reasons)]), cuts=rng.choice(['whole', 'small', 'bytes1']),
+                                            cb=cb, read_timeout_s=2.0, dest=('bytesio', 'path')[k % 2], local_as=('str', 'pathlib', 'fd', 'bytes')[(k // 2) % 4])]))
     # an aborted transfer first, then a rejected one on the same object (with and without a reconnect in between)
     for first in (dict(api='pull', path='/a3', size=9000, explicit_sizes=[4000, 5000], cuts=[8 + 1500], budget=3, read_timeout_s=1.0),
                   dict(api='pull', path='/a1', size=9000, explicit_sizes=[3000, 3000, 3000], cuts='whole', dest=['raise', 1])):
